@@ -336,6 +336,8 @@ class Engine:
     def _child(self, v, step):
         """Pure projection of a value (no deref of Ref)."""
         k = step[0]
+        if isinstance(v, Adt) and v.ty in ("VecLit", "Transparent") and k == "field":
+            return v
         if k == "field":
             i, ty = step[1], step[2]
             if isinstance(v, Adt):
@@ -373,6 +375,8 @@ class Engine:
     def _update(self, v, path, new):
         if not path:
             return new
+        if isinstance(v, Adt) and v.ty == "Transparent" and path[0][0] == "field":
+            return self._update(v, path[1:], new)
         step = path[0]
         k = step[0]
         if k == "downcast":
@@ -836,6 +840,8 @@ class Engine:
         if kind.startswith("PointerCoercion") or kind in ("PtrToPtr", "FnPtrToPtr"):
             return a
         if kind == "Transmute":
+            if isinstance(a, Adt) and a.ty == "VecLit":
+                return a.fields[0]      # the raw pointer to the literal's storage
             if z3.is_bv(a):
                 w = None
                 if dst in INT_TYPES:
@@ -1130,6 +1136,11 @@ class Engine:
         return self._complete(st, fr, dest, ret_bb, out, callee)
 
     def _complete(self, st, fr, dest, ret_bb, out, callee):
+        if isinstance(out, _InsertAt):
+            v = _deref_arg(self, st, out.r)
+            st.events.append(("insert", (out.r.root, out.r.path), out.i, out.val))
+            self.write_at(st, out.r.root, list(out.r.path), Arr(v.items[:out.i] + (out.val,) + v.items[out.i:], v.kind))
+            out = UNIT
         if isinstance(out, Panic):
             return self.end(st, "panic", info=out.info)
         if ret_bb is None:
@@ -1360,10 +1371,206 @@ def m_partial_eq(engine, st, fr, callee, args, ops):
     if (z3.is_bv(a) and z3.is_bv(b)) or (z3.is_bool(a) and z3.is_bool(b)):
         r = a == b
         return z3.simplify(z3.Not(r) if callee.endswith("::ne") else r)
-    raise Unsupported("PartialEq on %r / %r" % (a, b))
+    r = struct_eq(engine, st, a, b)
+    return z3.simplify(z3.Not(r) if callee.endswith("::ne") else r)
+
+
+def _concrete_index(v):
+    v = z3.simplify(v)
+    return v.as_long() if z3.is_bv_value(v) else None
+
+
+def m_vec_index(engine, st, fr, callee, args, ops):
+    r, idx = args[0], args[1]
+    v = _deref_arg(engine, st, r)
+    if not isinstance(v, Arr):
+        raise Unsupported("index into %r" % (v,))
+    i = _concrete_index(idx)
+    n = len(v.items)
+    if i is not None:
+        if i < n:
+            return Ref(r.root, r.path + (("index_c", i),), r.mut)
+        return Panic(("index out of bounds", "len %d index %d" % (n, i), fr.fn.name, fr.bb))
+    alts = [(idx == z3.BitVecVal(k, idx.size()), Ref(r.root, r.path + (("index_c", k),), r.mut)) for k in range(n)]
+    alts.append((z3.UGE(idx, z3.BitVecVal(n, idx.size())), Panic(("index out of bounds", "len %d" % n, fr.fn.name, fr.bb))))
+    return Fork(alts)
+
+
+def m_vec_len(engine, st, fr, callee, args, ops):
+    return engine.len_of(st, args[0])
+
+
+def m_vec_is_empty(engine, st, fr, callee, args, ops):
+    return z3.simplify(engine.len_of(st, args[0]) == 0)
+
+
+def m_vec_insert(engine, st, fr, callee, args, ops):
+    r, idx, val = args
+    v = _deref_arg(engine, st, r)
+    if not isinstance(v, Arr):
+        raise Unsupported("insert into %r" % (v,))
+    n = len(v.items)
+
+    def do(i):
+        return ("insert_at", i)
+    i = _concrete_index(idx)
+    if i is None:
+        alts = []
+        for k in range(n + 1):
+            alts.append((idx == z3.BitVecVal(k, idx.size()), _InsertAt(r, k, val)))
+        alts.append((z3.UGT(idx, z3.BitVecVal(n, idx.size())), Panic(("insertion index out of bounds", "len %d" % n, fr.fn.name, fr.bb))))
+        return Fork(alts)
+    if i > n:
+        return Panic(("insertion index out of bounds", "len %d index %d" % (n, i), fr.fn.name, fr.bb))
+    st.events.append(("insert", (r.root, r.path), i, val))
+    engine.write_at(st, r.root, list(r.path), Arr(v.items[:i] + (val,) + v.items[i:], v.kind))
+    return UNIT
+
+
+class _InsertAt:
+    """Deferred effect of a forked Vec::insert (applied when the alternative is taken)."""
+
+    def __init__(self, r, i, val):
+        self.r, self.i, self.val = r, i, val
+
+
+def m_vec_pop(engine, st, fr, callee, args, ops):
+    r = args[0]
+    v = _deref_arg(engine, st, r)
+    if not isinstance(v, Arr):
+        raise Unsupported("pop from %r" % (v,))
+    if not v.items:
+        return Adt("Option", "None", [])
+    st.events.append(("pop", (r.root, r.path)))
+    engine.write_at(st, r.root, list(r.path), Arr(v.items[:-1], v.kind))
+    return Adt("Option", "Some", [v.items[-1]])
+
+
+def m_option_ok_or(engine, st, fr, callee, args, ops):
+    v = args[0]
+    alts = []
+    for c, n in _discr_fork(engine, st, v, ["None", "Some"]):
+        alts.append((c, Adt("Result", "Ok", [_payload(engine, v, "Some")]) if n == "Some" else Adt("Result", "Err", [args[1]])))
+    return alts[0][1] if len(alts) == 1 and alts[0][0] is True else Fork(alts)
+
+
+def m_result_expect(engine, st, fr, callee, args, ops):
+    v = args[0]
+    alts = []
+    for c, n in _discr_fork(engine, st, v, ["Ok", "Err"]):
+        alts.append((c, _payload(engine, v, "Ok") if n == "Ok" else Panic(("expect/unwrap on Err", fr.fn.name, fr.bb))))
+    return alts[0][1] if len(alts) == 1 and alts[0][0] is True else Fork(alts)
+
+
+def m_option_map(engine, st, fr, callee, args, ops):
+    v, clo = args
+    if isinstance(v, Adt) and v.variant == "None":
+        return v
+    if isinstance(v, Adt) and v.variant == "Some":
+        fn = engine.resolve_fn(clo.name)
+        res = engine.call_pure(st, fn, [clo, v.fields[0]])
+        oks = [r for r in res if r.status == "return"]
+        if len(res) != 1 or not oks:
+            raise Unsupported("Option::map closure with %d paths" % len(res))
+        return Adt("Option", "Some", [oks[0].value])
+    raise Unsupported("Option::map on %r" % (v,))
+
+
+def m_option_unwrap_or_else(engine, st, fr, callee, args, ops):
+    v, clo = args
+    if isinstance(v, Adt):
+        if v.variant == "Some":
+            return v.fields[0]
+        return Inline(engine.resolve_fn(clo.name), [clo])
+    if isinstance(v, Sym):
+        raise Unsupported("unwrap_or_else on a symbolic Option: enumerate it in the harness")
+    raise Unsupported("unwrap_or_else on %r" % (v,))
+
+
+def m_new_uninit(engine, st, fr, callee, args, ops):
+    cell = ("h", engine.fresh_name("veclit"))
+    st.mem[cell] = Adt("Transparent", None, [])
+    return Adt("VecLit", None, [Ref(cell, (), True)])
+
+
+def m_assume_init_into_vec(engine, st, fr, callee, args, ops):
+    v = args[0]
+    if not (isinstance(v, Adt) and v.ty == "VecLit"):
+        raise Unsupported("box_assume_init_into_vec_unsafe of %r" % (v,))
+    arr = engine.read_at(st, v.fields[0].root, v.fields[0].path)
+    if not isinstance(arr, Arr):
+        raise Unsupported("vec! literal was not initialised: %r" % (arr,))
+    return Arr(arr.items, "vec")
+
+
+def m_vec_into_iter(engine, st, fr, callee, args, ops):
+    return Adt("SliceIterC", None, [args[0], z3.BitVecVal(0, 64)])
+
+
+def m_slice_iter_next(engine, st, fr, callee, args, ops):
+    r = args[0]
+    it = _deref_arg(engine, st, r)
+    if not (isinstance(it, Adt) and it.ty == "SliceIterC"):
+        raise Unsupported("next on %r" % (it,))
+    src, pos = it.fields
+    arr = _deref_arg(engine, st, src)
+    if isinstance(arr, Adt) and arr.ty == "Slice":
+        src = arr.fields[0]
+        arr = _deref_arg(engine, st, src)
+    if not isinstance(arr, Arr):
+        raise Unsupported("iteration over %r" % (arr,))
+    i = pos.as_long()
+    if i >= len(arr.items):
+        return Adt("Option", "None", [])
+    engine.write_at(st, r.root, list(r.path), Adt("SliceIterC", None, [src, z3.BitVecVal(i + 1, 64)]))
+    return Adt("Option", "Some", [Ref(src.root, src.path + (("index_c", i),))])
+
+
+def struct_eq(engine, st, a, b):
+    """Structural equality (derive(PartialEq)) of two values as a z3 Bool."""
+    if isinstance(a, Ref):
+        a = _deref_arg(engine, st, a)
+    if isinstance(b, Ref):
+        b = _deref_arg(engine, st, b)
+    if (z3.is_bv(a) and z3.is_bv(b)) or (z3.is_bool(a) and z3.is_bool(b)):
+        return a == b
+    if isinstance(a, Unit) and isinstance(b, Unit):
+        return z3.BoolVal(True)
+    if isinstance(a, StrV) and isinstance(b, StrV):
+        return z3.BoolVal(a.s == b.s)
+    if isinstance(a, Arr) and isinstance(b, Arr):
+        if len(a.items) != len(b.items):
+            return z3.BoolVal(False)
+        return z3.And(*[struct_eq(engine, st, x, y) for x, y in zip(a.items, b.items)]) if a.items else z3.BoolVal(True)
+    if isinstance(a, Adt) and isinstance(b, Adt):
+        if a.variant != b.variant or len(a.fields) != len(b.fields):
+            return z3.BoolVal(False)
+        return z3.And(*[struct_eq(engine, st, x, y) for x, y in zip(a.fields, b.fields)]) if a.fields else z3.BoolVal(True)
+    if isinstance(a, Sym) and isinstance(b, Sym) and a.name == b.name and not a.over and not b.over:
+        return z3.BoolVal(True)
+    raise Unsupported("structural equality of %r and %r" % (a, b))
+
+
+def m_struct_eq(engine, st, fr, callee, args, ops):
+    r = struct_eq(engine, st, args[0], args[1])
+    return z3.simplify(z3.Not(r) if callee.endswith("::ne") else r)
 
 
 BUILTIN_MODELS = [
+    (r"^<Vec<.*> as (std::ops::)?Index(Mut)?<usize>>::index(_mut)?$", m_vec_index),
+    (r"^Vec::<.*>::len$", m_vec_len),
+    (r"^Vec::<.*>::is_empty$", m_vec_is_empty),
+    (r"^Vec::<.*>::insert$", m_vec_insert),
+    (r"^Vec::<.*>::pop$", m_vec_pop),
+    (r"^Option::<.*>::ok_or::<", m_option_ok_or),
+    (r"^(std::result::)?Result::<.*>::(expect|unwrap)$", m_result_expect),
+    (r"^Option::<.*>::map::<", m_option_map),
+    (r"^Option::<.*>::unwrap_or_else::<", m_option_unwrap_or_else),
+    (r"^Box::<\[.*; \d+\]>::new_uninit$", m_new_uninit),
+    (r"box_assume_init_into_vec_unsafe::<", m_assume_init_into_vec),
+    (r"^<&Vec<.*> as IntoIterator>::into_iter$", m_vec_into_iter),
+    (r"^<std::slice::Iter<'_, .*> as Iterator>::next$", m_slice_iter_next),
+    (r"^<Vec<.*> as PartialEq(<.*>)?>::(eq|ne)$", m_struct_eq),
     (r"^<.* as PartialEq(<.*>)?>::(eq|ne)$", m_partial_eq),
     (r"^Option::<.*>::is_some$", m_option_is(True)),
     (r"^Option::<.*>::is_none$", m_option_is(False)),
